@@ -724,8 +724,11 @@ def run_matrix(tape, start, cfgs, loads, wd, tag, m128=False, scratch=None):
         env = env_of(cfg)
         if base_ok.get(env) is False:
             continue
+        t0 = time.time()
         s, err, _ = run_tap2sna(tape, os.path.join(wd, '%s_%d.z80' % (tag, k)), start, cfg, m128)
         p = project(s, err, cfg, loads)
+        if os.environ.get('C13_TIMES'):
+            print('%.2f %s' % (time.time() - t0, cfg_name(cfg)))
         if scratch:
             for (addr, bs), got in zip(loads, p['data']):
                 for i in range(len(got)):
@@ -1033,7 +1036,9 @@ def irq_edges(tape, first_edge, m128=False):
     with open(tape, 'rb') as f:
         data = f.read()
     with contextlib.redirect_stdout(io.StringIO()):
-        blocks = tap2sna._get_tzx_blocks(data, True, 1, 0, (), not m128)
+        blocks = tap2sna._get_tape_blocks([(tape, data)], True, 1, 0, (), not m128)
+        for b in blocks:
+            b.keys = None
         edges, dblocks = get_edges(blocks, first_edge, 0)
     firsts = [edges[0]] + [edges[b.end + 1] for b in dblocks[:-1]]
     return [int(x) for x in firsts]
@@ -1047,12 +1052,12 @@ def gen_irq(rnd, accs, idx):
     if n > 1 and idx % 3 == 0:
         kinds[rnd.randrange(1, n)] = 'rom'
     frame = 70908 if idx % 8 == 5 else 69888
-    ds = [IRQ_FIXED[idx % 8], rnd.randrange(0, 21), rnd.randrange(0, 41), -rnd.randrange(1, 41)]
+    ds = [IRQ_FIXED[idx % 8], rnd.randrange(0, 21), rnd.randrange(0, 21), rnd.randrange(0, 41), -rnd.randrange(1, 41)]
     return dict(acc=acc['name'], dly=rnd.choice((0x16, 0x16, 0x0C)), decjp=int(rnd.random() < 0.3), org=rnd.choice((0x8000, 0x9C40, 0xB000)),
                 kinds=kinds, wait=rnd.choice((0x0020, 0x0030)), scale=rnd.choice((1.0, 0.95, 1.06)), lens=[rnd.choice((1, 2, 9, 30)) for _ in kinds],
-                flags=[rnd.choice((0xFF, 0xAA, 0x81)) for _ in kinds], stack=rnd.choice((0, 0x7F00)), im=2 if idx % 4 else 1,
+                flags=[rnd.choice((0xFF, 0xAA, 0x81)) for _ in kinds], stack=rnd.choice((0, 0x7F00)), im=2,
                 m128=int(frame == 70908), frame=frame, ds=ds, deltas=[0] + [rnd.randrange(-6, 7) for _ in kinds[1:]],
-                gaps=[rnd.choice((400, 700, 1000)) for _ in kinds], npilot=rnd.choice((900, 1100, 1400)))
+                gaps=[rnd.choice((400, 700, 1000)) for _ in kinds], cmio=int(idx % 4 == 2), npilot=rnd.choice((750, 900)))
 
 
 def build_irq(rom, accs, g, rnd):
@@ -1141,12 +1146,13 @@ def irq_matrix(rnd, g, fes, names):
     cfgs = [{}]
     for j, fe in enumerate(fes):
         e = {'first-edge': fe}
-        cfgs += [e, dict(e, python=1), dict(e, accelerator='none', python=j % 2),
-                 dict(e, pause=0, python=(j + 1) % 2, accelerator=rnd.choice(('auto', names)))]
-        if j == 0:
+        # with interrupts enabled the tracers do not fast-forward sampling loops: the Python runs cost the same under every
+        # accelerator setting, so there is one per first-edge value and the other speed-up options go to C runs
+        cfgs += [e, dict(e, python=1, pause=rnd.choice((1, 1, 0))), dict(e, accelerator=rnd.choice(('none', names)), pause=j % 2)]
+        if j == 0 and g['cmio']:
             cfgs += [dict(e, cmio=1), dict(e, cmio=1, python=1)]
         if j == 1:
-            cfgs += [dict(e, **{'fast-load': 0}), dict(e, **{'fast-load': 0, 'python': 1, 'accelerate-dec-a': rnd.choice((1, 2))})]
+            cfgs += [dict(e, **{'fast-load': 0}), dict(e, **{'fast-load': 0, 'pause': 0, 'accelerator': 'none'})]
     return cfgs
 
 
